@@ -89,7 +89,6 @@ Theorem stacks_restored cc : forall s st, fst (fst (exec cc s st)) = st.
 Proof.
   unfold exec.
   induction s as [c k f|c u k f|x|b body IH] using stmt_ind'; intros st; try reflexivity.
-  { cbn [exec_with]. destruct (sudo_refuses k); reflexivity. }
   rewrite exec_block.
   assert (L : forall l s0, Forall (fun s => forall st, fst (fst (exec_with clause_of cc s st)) = st) l ->
                            fst (fst (exec_list_with clause_of cc l s0)) = s0).
@@ -182,46 +181,36 @@ Proof.
 Qed.
 
 (** * the model's calls are the composed ones, its exceptions the expected ones *)
-Lemma guard_block b body : sudo_watchers_ok (SBlock b body) = forallb sudo_watchers_ok body.
-Proof.
-  cbn [sudo_watchers_ok]. induction body as [|x l IH]; [reflexivity|]. cbn [forallb]. rewrite IH. reflexivity.
-Qed.
-
 Lemma exec_judge cc : forall s fs tail,
-  sudo_watchers_ok s = true ->
   judge_stmt cc fs s (snd (fst (exec cc s (state_of fs))) ++ tail)
   = (true, tail, snd (exec cc s (state_of fs))).
 Proof.
   unfold exec.
-  induction s as [c k f|c u k f|x|b body IH] using stmt_ind'; intros fs tail G.
+  induction s as [c k f|c u k f|x|b body IH] using stmt_ind'; intros fs tail.
   - cbn [exec_with judge_stmt fst snd app]. unfold do_run, run_raises.
     rewrite prefix_composed, call_ok_model, run_raises_spec. reflexivity.
-  - cbn [exec_with judge_stmt fst snd app]. unfold sudo_refuses. cbn [sudo_watchers_ok] in G.
-    assert (E : match kw k Watchers with Some ONone => true | _ => false end = false)
-      by (destruct (kw k Watchers) as [[]|]; try reflexivity; discriminate).
-    rewrite E. cbn [fst snd app]. unfold do_sudo, run_raises.
+  - cbn [exec_with judge_stmt fst snd app]. unfold do_sudo, run_raises.
     rewrite prefix_composed, sudo_string, call_ok_model, run_raises_spec. reflexivity.
   - reflexivity.
-  - rewrite guard_block in G. rewrite exec_block, judge_block, push_state.
+  - rewrite exec_block, judge_block, push_state.
     assert (L : forall l fs0 tail0,
-               Forall (fun s => forall fs tail, sudo_watchers_ok s = true ->
+               Forall (fun s => forall fs tail,
                          judge_stmt cc fs s (snd (fst (exec_with clause_of cc s (state_of fs))) ++ tail)
                          = (true, tail, snd (exec_with clause_of cc s (state_of fs)))) l ->
-               forallb sudo_watchers_ok l = true ->
                judge_list cc fs0 l (snd (fst (exec_list_with clause_of cc l (state_of fs0))) ++ tail0)
                = (true, tail0, snd (exec_list_with clause_of cc l (state_of fs0)))).
-    { induction l as [|x l IHl]; intros fs0 tail0 F GL; [reflexivity|].
-      inversion F as [|? ? Hx Hl]; subst. cbn [forallb] in GL. apply andb_true_iff in GL as [Gx GL].
+    { induction l as [|x l IHl]; intros fs0 tail0 F; [reflexivity|].
+      inversion F as [|? ? Hx Hl]; subst.
       cbn [exec_list_with judge_list].
       pose proof (stacks_restored cc x (state_of fs0)) as R. unfold exec in R.
       specialize (Hx fs0).
       destruct (exec_with clause_of cc x (state_of fs0)) as [[s' o] r]. cbn [fst snd] in R, Hx. subst s'.
       destruct r as [xk|].
-      - cbn [fst snd]. rewrite (Hx tail0 Gx). reflexivity.
-      - specialize (IHl fs0 tail0 Hl GL).
+      - cbn [fst snd]. rewrite (Hx tail0). reflexivity.
+      - specialize (IHl fs0 tail0 Hl).
         destruct (exec_list_with clause_of cc l (state_of fs0)) as [[s'' o'] r']. cbn [fst snd] in *.
-        rewrite <- app_assoc, (Hx (o' ++ tail0) Gx), IHl. reflexivity. }
-    specialize (L body (fs ++ [b]) tail IH G).
+        rewrite <- app_assoc, (Hx (o' ++ tail0)), IHl. reflexivity. }
+    specialize (L body (fs ++ [b]) tail IH).
     destruct (exec_list_with clause_of cc body (state_of (fs ++ [b]))) as [[s2 o] r]. cbn [fst snd] in L.
     destruct b; cbn [fst snd]; rewrite L; reflexivity.
 Qed.
@@ -230,27 +219,25 @@ Lemma oxkind_eqb_refl r : oxkind_eqb r r = true.
 Proof. destruct r as [[]|]; reflexivity. Qed.
 
 Theorem program_meets_spec cc prog :
-  guard_prog prog = true ->
   spec_ok_ctx cc prog (snd (fst (run_program cc prog))) (fst (fst (run_program cc prog)))
               (snd (run_program cc prog)) = true.
 Proof.
-  unfold run_program, spec_ok_ctx, guard_prog. intros G.
+  unfold run_program, spec_ok_ctx.
   pose proof (program_restores cc prog c0) as R. unfold exec_list in *.
-  assert (L : forall l tail, forallb sudo_watchers_ok l = true ->
+  assert (L : forall l tail,
              judge_list cc [] l (snd (fst (exec_list_with clause_of cc l c0)) ++ tail)
              = (true, tail, snd (exec_list_with clause_of cc l c0))).
-  { induction l as [|x l IHl]; intros tail GL; [reflexivity|].
-    cbn [forallb] in GL. apply andb_true_iff in GL as [Gx GL].
+  { induction l as [|x l IHl]; intros tail; [reflexivity|].
     cbn [exec_list_with judge_list].
     pose proof (stacks_restored cc x c0) as Rx.
     pose proof (exec_judge cc x []) as Hx. change (state_of []) with c0 in Hx. unfold exec in Rx, Hx.
     destruct (exec_with clause_of cc x c0) as [[s' o] r]. cbn [fst snd] in Rx, Hx. subst s'.
     destruct r as [xk|].
-    - cbn [fst snd]. rewrite (Hx tail Gx). reflexivity.
-    - specialize (IHl tail GL).
+    - cbn [fst snd]. rewrite (Hx tail). reflexivity.
+    - specialize (IHl tail).
       destruct (exec_list_with clause_of cc l c0) as [[s'' o'] r']. cbn [fst snd] in *.
-      rewrite <- app_assoc, (Hx (o' ++ tail) Gx), IHl. reflexivity. }
-  specialize (L prog [] G). rewrite app_nil_r in L.
+      rewrite <- app_assoc, (Hx (o' ++ tail)), IHl. reflexivity. }
+  specialize (L prog []). rewrite app_nil_r in L.
   destruct (exec_list_with clause_of cc prog c0) as [[st calls] r]. cbn [fst snd] in *. subst st.
   rewrite L, oxkind_eqb_refl. reflexivity.
 Qed.
@@ -290,15 +277,13 @@ Proof.
 Qed.
 
 Theorem sudo_wraps_prefixed cc fs cmd u k :
-  sudo_refuses k = false ->
   rejected (cc_run cc) k = None -> truthy (want (cc_run cc) k Dry) = false ->
   snd (fst (run_program cc (nest fs [SSudo cmd u k false])))
   = [Some (sudo_wrapped cc u k (composed fs cmd), want (cc_run cc) k Shell,
            generate_env (want (cc_run cc) k Env) (want (cc_run cc) k ReplaceEnv) (cc_parent cc))].
 Proof.
-  intros W S D. unfold run_program. change c0 with (state_of []).
-  rewrite nest_calls. unfold exec_list. cbn [app exec_list_with exec_with fst snd]. rewrite W.
-  cbn [fst snd]. unfold do_sudo.
+  intros S D. unfold run_program. change c0 with (state_of []).
+  rewrite nest_calls. unfold exec_list. cbn [app exec_list_with exec_with fst snd]. unfold do_sudo.
   rewrite prefix_composed, sudo_string.
   destruct (run_raises _ false); cbn [fst snd]; rewrite ?app_nil_r;
     rewrite started_value by assumption; reflexivity.
@@ -326,17 +311,21 @@ Proof.
   vm_compute. repeat split; reflexivity.
 Qed.
 
-(** * F-C15b: sudo(watchers=None) *)
-Theorem sudo_watchers_none_refuted :
-  exists cc prog,
-    (* run accepts watchers=None as "not given" ... *)
-    snd (run_program cc [SRun "ls" (mkKw (fun o => match o with Watchers => Some ONone | _ => None end) None []) false]) = None /\
-    (* ... sudo raises TypeError and starts nothing *)
-    run_program cc prog = (c0, [None], Some XType) /\
-    spec_ok_ctx cc prog (snd (fst (run_program cc prog))) (fst (fst (run_program cc prog)))
-                (snd (run_program cc prog)) = false.
+(** * Historical: before fix 2644606 [_sudo] did [list(kwargs.pop("watchers", ...))],
+    so an explicit [watchers=None] raised TypeError before the runner was reached
+    (F-C15b), although the specification -- and [run] -- take None as "not given". *)
+Definition sudo_refused_before_fix (k : kwargs) : bool :=
+  match kw k Watchers with Some ONone => true | _ => false end.
+
+Theorem sudo_watchers_none_before_fix_refuted :
+  exists cc k,
+    sudo_refused_before_fix k = true /\             (* TypeError, nothing started ... *)
+    expected_raise (cc_run cc) k false = None /\    (* ... where nothing has to be raised *)
+    (* and the code as it is now starts the wrapped command *)
+    run_program cc [SSudo "whoami" None k false]
+    = (c0, [Some ("sudo -S -p 'P:' whoami"%string, OStr "/bin/bash", [])], None).
 Proof.
   exists (mkCC (mkCfg (fun _ => None) ONone) "P:" ONone []),
-         [SSudo "whoami" None (mkKw (fun o => match o with Watchers => Some ONone | _ => None end) None []) false].
+         (mkKw (fun o => match o with Watchers => Some ONone | _ => None end) None []).
   vm_compute. repeat split; reflexivity.
 Qed.
